@@ -1,0 +1,676 @@
+//! Verification hooks (cargo feature `verif`, off by default).
+//!
+//! This module only exposes constructors for crate-private types, thin wrappers around
+//! crate-private functions and plain-data snapshots of internal state. It contains no checking
+//! logic; it is used by an external monitoring harness.
+
+use std::rc::Rc;
+use std::time::{Duration, Instant};
+
+use bytes::{Bytes, BytesMut};
+use futures::Stream;
+use tokio::sync::Notify;
+use tokio::sync::mpsc::UnboundedReceiver;
+use tokio::task::JoinHandle;
+
+use crate::control::ServerRef;
+use crate::gateway::{CrashLimit, LostWorkerReason};
+use crate::internal::messages::worker::{
+    NewWorkerMsg, ToWorkerMessage, WorkerRegistrationResponse,
+};
+use crate::internal::scheduler::{SchedulerConfig, SchedulerResult, run_scheduling};
+use crate::internal::server::comm::CommSenderRef;
+use crate::internal::server::core::CoreRef;
+use crate::internal::server::reactor::{on_new_worker, on_remove_worker};
+use crate::internal::server::rpc::worker_receive_loop;
+use crate::internal::server::task::TaskRuntimeState;
+use crate::internal::server::worker::{DEFAULT_WORKER_OVERVIEW_INTERVAL, Worker, WorkerAssignment};
+use crate::internal::transfer::auth::{deserialize, serialize};
+use crate::internal::worker::comm::WorkerComm;
+use crate::internal::worker::configuration::{WorkerConfiguration, sync_worker_configuration};
+use crate::internal::worker::rpc::process_worker_message;
+use crate::internal::worker::state::WorkerStateRef;
+use crate::launcher::TaskLauncher;
+use crate::resources::{
+    Allocation, ResourceDescriptor, ResourceIdMap, ResourceRequest, ResourceRqMap,
+};
+use crate::{InstanceId, Priority, ResourceVariantId, TaskId, WorkerId};
+
+/* ------------------------------------------------------------------------------------------- */
+/* Server side                                                                                 */
+/* ------------------------------------------------------------------------------------------- */
+
+#[derive(Debug, Clone, PartialEq, Eq, Hash)]
+pub enum TaskStateSnapshot {
+    Waiting { unfinished_deps: u32 },
+    Assigned { worker_id: WorkerId, rv_id: ResourceVariantId },
+    Prefilled { worker_id: WorkerId },
+    Retracting { worker_id: WorkerId },
+    Running { worker_id: WorkerId, rv_id: ResourceVariantId },
+    RunningMultiNode(Vec<WorkerId>),
+    Finished,
+}
+
+#[derive(Debug, Clone)]
+pub struct TaskSnapshot {
+    pub id: TaskId,
+    pub state: TaskStateSnapshot,
+    pub deps: Vec<TaskId>,
+    pub consumers: Vec<TaskId>,
+    pub resource_rq_id: u32,
+    pub priority: Priority,
+    pub instance_id: InstanceId,
+    pub crash_counter: u32,
+    pub crash_limit: CrashLimit,
+    pub time_limit: Option<Duration>,
+}
+
+#[derive(Debug, Clone)]
+pub enum WorkerAssignmentSnapshot {
+    Sn {
+        assigned: Vec<TaskId>,
+        prefilled: Vec<TaskId>,
+        /// free resources as the server accounts them (total fractions per resource id)
+        free: Vec<u64>,
+    },
+    Mn {
+        task_id: TaskId,
+        is_root: bool,
+    },
+}
+
+#[derive(Debug, Clone)]
+pub struct WorkerSnapshot {
+    pub id: WorkerId,
+    pub group: String,
+    /// total fractions per resource id
+    pub resources: Vec<u64>,
+    pub assignment: WorkerAssignmentSnapshot,
+    pub blocked_requests: Vec<(u32, ResourceVariantId)>,
+    pub termination_time: Option<Instant>,
+    pub stopping: bool,
+    pub reserved: bool,
+}
+
+#[derive(Debug, Clone)]
+pub struct QueueSnapshot {
+    pub resource_rq_id: u32,
+    /// (priority, task ids) in descending priority order
+    pub ready: Vec<(Priority, Vec<TaskId>)>,
+    pub prefill: Option<(Priority, Vec<TaskId>)>,
+}
+
+#[derive(Debug, Clone)]
+pub struct CoreSnapshot {
+    pub tasks: Vec<TaskSnapshot>,
+    pub workers: Vec<WorkerSnapshot>,
+    pub queues: Vec<QueueSnapshot>,
+    pub redirects: Vec<(TaskId, WorkerId, ResourceVariantId)>,
+    pub requests: ResourceRqMap,
+    pub resource_names: Vec<String>,
+    pub worker_groups: Vec<(String, Vec<WorkerId>)>,
+    pub worker_id_counter: u32,
+}
+
+/// Server core + comm without sockets.
+#[derive(Clone)]
+pub struct SimServer {
+    server_ref: ServerRef,
+}
+
+impl SimServer {
+    pub fn new(
+        server_uid: String,
+        worker_id_initial_value: WorkerId,
+        scheduler_config: SchedulerConfig,
+        idle_timeout: Option<Duration>,
+    ) -> Self {
+        let scheduler_wakeup = Rc::new(Notify::new());
+        let comm_ref = CommSenderRef::new(scheduler_wakeup, false);
+        let core_ref = CoreRef::new(
+            0,
+            None,
+            idle_timeout,
+            None,
+            server_uid,
+            worker_id_initial_value,
+            scheduler_config,
+        );
+        SimServer {
+            server_ref: ServerRef::verif_new(core_ref, comm_ref),
+        }
+    }
+
+    pub fn server_ref(&self) -> ServerRef {
+        self.server_ref.clone()
+    }
+
+    fn core_ref(&self) -> &CoreRef {
+        self.server_ref.verif_core_ref()
+    }
+
+    fn comm_ref(&self) -> &CommSenderRef {
+        self.server_ref.verif_comm_ref()
+    }
+
+    /// The registration part of `worker_rpc_loop`. Returns the new worker id and the queue of
+    /// serialized messages for this worker (its first item is the registration response).
+    pub fn connect_worker(
+        &self,
+        configuration: WorkerConfiguration,
+        now: Instant,
+    ) -> (WorkerId, UnboundedReceiver<Bytes>) {
+        let core_ref = self.core_ref();
+        let comm_ref = self.comm_ref();
+        let worker_id = core_ref.get_mut().new_worker_id();
+        let mut configuration = configuration;
+        sync_worker_configuration(&mut configuration, *core_ref.get().idle_timeout());
+        let (queue_sender, queue_receiver) = tokio::sync::mpsc::unbounded_channel::<Bytes>();
+        {
+            let mut core = core_ref.get_mut();
+            for item in &configuration.resources.resources {
+                core.get_or_create_resource_id(&item.name);
+            }
+            let worker = Worker::new(
+                worker_id,
+                configuration.clone(),
+                &core.create_resource_map(),
+                now,
+            );
+            on_new_worker(&mut core, &mut *comm_ref.get_mut(), worker);
+        }
+        let message: WorkerRegistrationResponse = {
+            let core = core_ref.get();
+            WorkerRegistrationResponse {
+                worker_id,
+                resource_names: core.create_resource_map().into_vec(),
+                resource_rq_map: core.get_resource_rq_map().clone(),
+                other_workers: core
+                    .get_workers()
+                    .filter_map(|w| {
+                        if w.id != worker_id {
+                            Some(NewWorkerMsg {
+                                worker_id: w.id(),
+                                address: w.configuration().listen_address.clone(),
+                                resources: w.resources.to_transport(),
+                            })
+                        } else {
+                            None
+                        }
+                    })
+                    .collect(),
+                server_idle_timeout: *core.idle_timeout(),
+                server_uid: core.server_uid().to_string(),
+                worker_overview_interval_override: if core.worker_overview_listeners() > 0 {
+                    Some(DEFAULT_WORKER_OVERVIEW_INTERVAL)
+                } else {
+                    None
+                },
+            }
+        };
+        queue_sender
+            .send(serialize(&message).unwrap().into())
+            .unwrap();
+        comm_ref.get_mut().add_worker(worker_id, queue_sender);
+        (worker_id, queue_receiver)
+    }
+
+    /// Spawns (on the current `LocalSet`) the real server-side receive loop of a worker
+    /// connection, fed from `stream`.
+    pub fn spawn_receive_loop<S>(&self, worker_id: WorkerId, stream: S) -> JoinHandle<bool>
+    where
+        S: Stream<Item = Result<BytesMut, std::io::Error>> + Unpin + 'static,
+    {
+        let core_ref = self.core_ref().clone();
+        let comm_ref = self.comm_ref().clone();
+        tokio::task::spawn_local(async move {
+            worker_receive_loop(core_ref, comm_ref, worker_id, stream, None)
+                .await
+                .is_ok()
+        })
+    }
+
+    /// The tail of `worker_rpc_loop`: the connection of `worker_id` is gone.
+    pub fn disconnect_worker(&self, worker_id: WorkerId, reason: LostWorkerReason) {
+        let mut core = self.core_ref().get_mut();
+        let mut comm = self.comm_ref().get_mut();
+        let reason = core
+            .get_worker(worker_id)
+            .stop_reason
+            .map(|(r, _)| r)
+            .unwrap_or(reason);
+        comm.remove_worker(worker_id);
+        on_remove_worker(&mut core, &mut *comm, worker_id, reason);
+    }
+
+    pub fn worker_stop_reason(&self, worker_id: WorkerId) -> Option<LostWorkerReason> {
+        self.core_ref()
+            .get()
+            .get_worker_map()
+            .get(&worker_id)
+            .and_then(|w| w.stop_reason.map(|(r, _)| r))
+    }
+
+    pub fn need_scheduling(&self) -> bool {
+        self.comm_ref().get().get_scheduling_flag()
+    }
+
+    /// One iteration of the body of `scheduler_loop`. Returns 0 = done, 1 = need more compute
+    /// (flag stays set), 2 = no progress.
+    pub fn run_scheduling(&self, now: Instant) -> u8 {
+        let r = run_scheduling(
+            &mut self.core_ref().get_mut(),
+            &mut self.comm_ref().get_mut(),
+            now,
+        );
+        match r {
+            SchedulerResult::NeedMoreCompute => 1,
+            SchedulerResult::Done => {
+                self.comm_ref().get_mut().reset_scheduling_flag();
+                0
+            }
+            SchedulerResult::NoProgress => {
+                self.comm_ref().get_mut().reset_scheduling_flag();
+                2
+            }
+        }
+    }
+
+    pub fn worker_id_counter(&self) -> u32 {
+        self.core_ref().get().worker_counter()
+    }
+
+    pub fn server_uid(&self) -> String {
+        self.core_ref().get().server_uid().to_string()
+    }
+
+    pub fn snapshot(&self) -> CoreSnapshot {
+        let core = self.core_ref().get();
+        let split = core.split();
+        let mut tasks: Vec<TaskSnapshot> = split
+            .task_map
+            .tasks()
+            .map(|t| TaskSnapshot {
+                id: t.id,
+                state: match &t.state {
+                    TaskRuntimeState::Waiting { unfinished_deps } => TaskStateSnapshot::Waiting {
+                        unfinished_deps: *unfinished_deps,
+                    },
+                    TaskRuntimeState::Assigned { worker_id, rv_id } => {
+                        TaskStateSnapshot::Assigned {
+                            worker_id: *worker_id,
+                            rv_id: *rv_id,
+                        }
+                    }
+                    TaskRuntimeState::Prefilled { worker_id } => TaskStateSnapshot::Prefilled {
+                        worker_id: *worker_id,
+                    },
+                    TaskRuntimeState::Retracting { worker_id } => TaskStateSnapshot::Retracting {
+                        worker_id: *worker_id,
+                    },
+                    TaskRuntimeState::Running { worker_id, rv_id } => TaskStateSnapshot::Running {
+                        worker_id: *worker_id,
+                        rv_id: *rv_id,
+                    },
+                    TaskRuntimeState::RunningMultiNode(ws) => {
+                        TaskStateSnapshot::RunningMultiNode(ws.iter().copied().collect())
+                    }
+                    TaskRuntimeState::Finished => TaskStateSnapshot::Finished,
+                },
+                deps: t.task_deps.iter().copied().collect(),
+                consumers: {
+                    let mut c: Vec<TaskId> = t.get_consumers().iter().copied().collect();
+                    c.sort_unstable();
+                    c
+                },
+                resource_rq_id: t.resource_rq_id.as_num(),
+                priority: t.priority(),
+                instance_id: t.instance_id,
+                crash_counter: t.crash_counter,
+                crash_limit: t.configuration.crash_limit,
+                time_limit: t.configuration.time_limit,
+            })
+            .collect();
+        tasks.sort_unstable_by_key(|t| t.id);
+
+        let mut workers: Vec<WorkerSnapshot> = split
+            .worker_map
+            .get_workers()
+            .map(|w| WorkerSnapshot {
+                id: w.id,
+                group: w.configuration.group.clone(),
+                resources: w
+                    .resources
+                    .iter_amounts()
+                    .map(|a| a.total_fractions())
+                    .collect(),
+                assignment: match w.assignment() {
+                    WorkerAssignment::Sn(sn) => {
+                        let mut assigned: Vec<TaskId> = sn.assigned_tasks.iter().copied().collect();
+                        assigned.sort_unstable();
+                        let mut prefilled: Vec<TaskId> =
+                            sn.prefilled_tasks.iter().copied().collect();
+                        prefilled.sort_unstable();
+                        WorkerAssignmentSnapshot::Sn {
+                            assigned,
+                            prefilled,
+                            free: sn
+                                .free_resources
+                                .iter_amounts()
+                                .map(|a| a.total_fractions())
+                                .collect(),
+                        }
+                    }
+                    WorkerAssignment::Mn(mn) => WorkerAssignmentSnapshot::Mn {
+                        task_id: mn.task_id,
+                        is_root: mn.is_root,
+                    },
+                },
+                blocked_requests: {
+                    let mut b: Vec<_> = w
+                        .blocked_requests
+                        .iter()
+                        .map(|(rq, rv)| (rq.as_num(), *rv))
+                        .collect();
+                    b.sort_unstable();
+                    b
+                },
+                termination_time: w.termination_time,
+                stopping: w.is_stopping(),
+                reserved: w.is_reserved(),
+            })
+            .collect();
+        workers.sort_unstable_by_key(|w| w.id);
+
+        let queues = split
+            .task_queues
+            .iter()
+            .map(|q| QueueSnapshot {
+                resource_rq_id: q.resource_rq_id.as_num(),
+                ready: q.verif_ready(),
+                prefill: q.prefill.as_ref().map(|(p, ts)| {
+                    let mut v: Vec<TaskId> = ts.iter().copied().collect();
+                    v.sort_unstable();
+                    (*p, v)
+                }),
+            })
+            .collect();
+
+        let mut redirects: Vec<(TaskId, WorkerId, ResourceVariantId)> = split
+            .scheduler_state
+            .redirects
+            .iter()
+            .map(|(t, (w, rv))| (*t, *w, *rv))
+            .collect();
+        redirects.sort_unstable();
+
+        let mut worker_groups: Vec<(String, Vec<WorkerId>)> = split
+            .worker_groups
+            .iter()
+            .map(|(name, g)| {
+                let mut ws: Vec<WorkerId> = g.worker_ids().collect();
+                ws.sort_unstable();
+                (name.clone(), ws)
+            })
+            .collect();
+        worker_groups.sort();
+
+        CoreSnapshot {
+            tasks,
+            workers,
+            queues,
+            redirects,
+            requests: split.request_map.clone(),
+            resource_names: core.create_resource_map().into_vec(),
+            worker_groups,
+            worker_id_counter: core.worker_counter(),
+        }
+    }
+}
+
+/* ------------------------------------------------------------------------------------------- */
+/* Worker side                                                                                 */
+/* ------------------------------------------------------------------------------------------- */
+
+#[derive(Debug, Clone)]
+pub struct AllocationSnapshot {
+    /// (resource id, amount in total fractions, [(index, group, fractions)])
+    pub resources: Vec<(u32, u64, Vec<(u32, u32, u32)>)>,
+}
+
+impl AllocationSnapshot {
+    pub fn from_allocation(allocation: &Allocation) -> Self {
+        AllocationSnapshot {
+            resources: allocation
+                .resources
+                .iter()
+                .map(|ra| {
+                    (
+                        ra.resource_id.as_num(),
+                        ra.amount.total_fractions(),
+                        ra.indices
+                            .iter()
+                            .map(|i| (i.index.as_num(), i.group_idx, i.fractions))
+                            .collect(),
+                    )
+                })
+                .collect(),
+        }
+    }
+}
+
+#[derive(Debug, Clone)]
+pub struct WorkerStateSnapshot {
+    pub worker_id: WorkerId,
+    pub running: Vec<(TaskId, InstanceId, ResourceVariantId, AllocationSnapshot)>,
+    /// (resource rq id, task ids in backlog order)
+    pub prefilled: Vec<(u32, Vec<TaskId>)>,
+    pub blocked_requests: Vec<(u32, ResourceVariantId)>,
+    pub known_workers: Vec<WorkerId>,
+    pub allocator: AllocatorSnapshot,
+}
+
+/// A real `WorkerState` whose outgoing queue is owned by the caller.
+#[derive(Clone)]
+pub struct SimWorker {
+    state_ref: WorkerStateRef,
+}
+
+impl SimWorker {
+    /// `registration` is the serialized `WorkerRegistrationResponse` (first message from the
+    /// server). Mirrors the state construction in `run_worker`.
+    pub fn new(
+        registration: &[u8],
+        configuration: WorkerConfiguration,
+        launcher_setup: impl FnOnce(&str, WorkerId) -> Box<dyn TaskLauncher>,
+    ) -> crate::Result<(Self, UnboundedReceiver<Bytes>)> {
+        let WorkerRegistrationResponse {
+            worker_id,
+            other_workers,
+            resource_names,
+            resource_rq_map,
+            server_idle_timeout,
+            server_uid,
+            worker_overview_interval_override,
+        } = deserialize(registration)?;
+        let mut configuration = configuration;
+        sync_worker_configuration(&mut configuration, server_idle_timeout);
+        let (queue_sender, queue_receiver) = tokio::sync::mpsc::unbounded_channel::<Bytes>();
+        let comm = WorkerComm::new(queue_sender);
+        let launcher = launcher_setup(&server_uid, worker_id);
+        let state_ref = WorkerStateRef::new(
+            comm,
+            worker_id,
+            configuration,
+            ResourceIdMap::from_vec(resource_names),
+            resource_rq_map,
+            launcher,
+            server_uid,
+        );
+        {
+            let mut state = state_ref.get_mut();
+            state.worker_overview_interval_override = worker_overview_interval_override;
+            for worker_info in other_workers {
+                state.new_worker(worker_info);
+            }
+        }
+        Ok((SimWorker { state_ref }, queue_receiver))
+    }
+
+    pub fn worker_id(&self) -> WorkerId {
+        self.state_ref.get().worker_id
+    }
+
+    /// Deserializes and processes one message from the server, like `worker_message_loop`.
+    /// Returns true if the worker should stop.
+    pub fn deliver(&self, data: &[u8]) -> crate::Result<bool> {
+        let message: ToWorkerMessage = deserialize(data)?;
+        let mut state = self.state_ref.get_mut();
+        Ok(process_worker_message(&mut state, message))
+    }
+
+    /// Spawns the real periodic retract check on the current `LocalSet`.
+    pub fn spawn_retract_check(&self, interval: Duration) -> JoinHandle<()> {
+        let state_ref = self.state_ref.clone();
+        tokio::task::spawn_local(crate::internal::worker::rpc::verif_retract_check_process(
+            interval, state_ref,
+        ))
+    }
+
+    /// Makes the worker `d` older (as if `d` of its lifetime had passed).
+    pub fn shift_start_time(&self, d: Duration) {
+        let mut state = self.state_ref.get_mut();
+        state.start_time = state.start_time.checked_sub(d).unwrap();
+    }
+
+    pub fn remaining_time(&self) -> Option<Duration> {
+        let state = self.state_ref.get();
+        state.configuration.time_limit.map(|limit| {
+            limit.saturating_sub(Instant::now().saturating_duration_since(state.start_time))
+        })
+    }
+
+    pub fn resource_request(&self, rq_id: u32, rv_id: ResourceVariantId) -> ResourceRequest {
+        self.state_ref
+            .get()
+            .resource_rq_map
+            .get(rq_id.into())
+            .get(rv_id)
+            .clone()
+    }
+
+    pub fn snapshot(&self) -> WorkerStateSnapshot {
+        let state = self.state_ref.get();
+        let mut running: Vec<_> = state
+            .running_tasks
+            .values()
+            .map(|rt| {
+                (
+                    rt.task.id,
+                    rt.task.instance_id,
+                    rt.rv_id,
+                    AllocationSnapshot::from_allocation(&rt.allocation),
+                )
+            })
+            .collect();
+        running.sort_unstable_by_key(|r| r.0);
+        let mut prefilled: Vec<(u32, Vec<TaskId>)> = state
+            .prefilled_tasks
+            .iter()
+            .map(|(rq, ts)| (rq.as_num(), ts.iter().map(|t| t.id).collect()))
+            .collect();
+        prefilled.sort_unstable();
+        let mut blocked_requests: Vec<_> = state
+            .blocked_requests
+            .iter()
+            .map(|(rq, rv)| (rq.as_num(), *rv))
+            .collect();
+        blocked_requests.sort_unstable();
+        let mut known_workers: Vec<WorkerId> = state.worker_addresses.keys().copied().collect();
+        known_workers.sort_unstable();
+        WorkerStateSnapshot {
+            worker_id: state.worker_id,
+            running,
+            prefilled,
+            blocked_requests,
+            known_workers,
+            allocator: state.allocator.verif_snapshot(),
+        }
+    }
+}
+
+/* ------------------------------------------------------------------------------------------- */
+/* Worker resource allocator                                                                   */
+/* ------------------------------------------------------------------------------------------- */
+
+#[derive(Debug, Clone, PartialEq, Eq)]
+pub enum PoolSnapshot {
+    Empty,
+    /// free whole indices, partially free indices (index -> free fractions)
+    Indices {
+        full_size: u64,
+        indices: Vec<u32>,
+        fractions: Vec<(u32, u32)>,
+    },
+    Groups {
+        full_size: u64,
+        indices: Vec<Vec<u32>>,
+        fractions: Vec<Vec<(u32, u32)>>,
+    },
+    Sum {
+        full_size: u64,
+        free: u64,
+    },
+}
+
+/// per group: (free whole units, partially free indices (index -> free fractions))
+pub type ConciseSnapshot = Vec<(u32, Vec<(u32, u32)>)>;
+
+#[derive(Debug, Clone, PartialEq, Eq)]
+pub struct AllocatorSnapshot {
+    pub pools: Vec<PoolSnapshot>,
+    pub concise: Vec<ConciseSnapshot>,
+}
+
+/// A bare `ResourceAllocator`.
+pub struct AllocatorLab {
+    allocator: crate::internal::worker::resources::allocator::ResourceAllocator,
+    resource_map: ResourceIdMap,
+}
+
+impl AllocatorLab {
+    pub fn new(descriptor: &ResourceDescriptor, resource_names: Vec<String>) -> Self {
+        let resource_map = ResourceIdMap::from_vec(resource_names);
+        let label_map =
+            crate::internal::worker::resources::map::ResourceLabelMap::new(descriptor, &resource_map);
+        let allocator = crate::internal::worker::resources::allocator::ResourceAllocator::new(
+            descriptor,
+            &resource_map,
+            &label_map,
+        );
+        AllocatorLab {
+            allocator,
+            resource_map,
+        }
+    }
+
+    pub fn resource_map(&self) -> &ResourceIdMap {
+        &self.resource_map
+    }
+
+    pub fn try_allocate(&mut self, request: &ResourceRequest) -> Option<Rc<Allocation>> {
+        self.allocator.try_allocate(request)
+    }
+
+    pub fn is_enabled(&self, request: &ResourceRequest) -> bool {
+        self.allocator.is_enabled(request)
+    }
+
+    pub fn release_allocation(&mut self, allocation: Rc<Allocation>) {
+        self.allocator.release_allocation(allocation)
+    }
+
+    pub fn snapshot(&self) -> AllocatorSnapshot {
+        self.allocator.verif_snapshot()
+    }
+}
